@@ -1,4 +1,5 @@
 import Proofs.Lemmas.Solver
+import Proofs.Lemmas.SolverOutcome
 import FsicModel.Generated
 /-
 C05 — solve() equals the ordered sequence of single-period solves; failures are contained.
@@ -210,5 +211,75 @@ example : solve exI { maxIter := 3 } 4 1 0 none none ⟨0, List.replicate 4 .uns
 example : AllReturn exI { maxIter := 3, failRaise := false } 4 [1, 2, 3]
     ⟨0, List.replicate 4 .unsolved, List.replicate 4 (-1)⟩ := by
   simp [AllReturn]; decide
+
+/-! ### The record of earlier solves never feeds back into a multi-period solve -/
+
+/-- The period loop of `solve()` from the same values gives the same values and the same result (positions, flags,
+    exception) whatever `status` / `iterations` held before: periods solved earlier, failed earlier or never touched
+    are treated alike. -/
+theorem solveList_history_irrelevant (ps : List Nat) (u : σ) (st st' : List Status) (it it' : List Int)
+    (acc : List Nat) (fs : List Bool) :
+    (solveList I o n ps ⟨u, st, it⟩ acc fs).1.user = (solveList I o n ps ⟨u, st', it'⟩ acc fs).1.user ∧
+    (solveList I o n ps ⟨u, st, it⟩ acc fs).2 = (solveList I o n ps ⟨u, st', it'⟩ acc fs).2 := by
+  induction ps generalizing u st st' it it' acc fs with
+  | nil => exact ⟨rfl, rfl⟩
+  | cons p rest ih =>
+    unfold solveList
+    have h1 := solveT_eq_outcome I o n (p : Int) ⟨u, st, it⟩
+    have h2 := solveT_eq_outcome I o n (p : Int) ⟨u, st', it'⟩
+    simp only at h1 h2
+    rcases hoc : outcomeOf I o n (p : Int) u with ⟨u', sk, r⟩
+    rw [hoc] at h1 h2
+    have e1 : solveT I o n (p : Int) ⟨u, st, it⟩ =
+        (⟨u', (applyOutcome n p ⟨u, st, it⟩ (u', sk, r)).1.status, (applyOutcome n p ⟨u, st, it⟩ (u', sk, r)).1.iters⟩, r) := by
+      rw [h1]
+      have hu := applyOutcome_user n p ⟨u, st, it⟩ (u', sk, r)
+      have hr := applyOutcome_result n p ⟨u, st, it⟩ (u', sk, r)
+      rcases hx : applyOutcome n p ⟨u, st, it⟩ (u', sk, r) with ⟨⟨a, b, c⟩, d⟩
+      rw [hx] at hu hr
+      simp only at hu hr
+      subst hu; subst hr; rfl
+    have e2 : solveT I o n (p : Int) ⟨u, st', it'⟩ =
+        (⟨u', (applyOutcome n p ⟨u, st', it'⟩ (u', sk, r)).1.status, (applyOutcome n p ⟨u, st', it'⟩ (u', sk, r)).1.iters⟩, r) := by
+      rw [h2]
+      have hu := applyOutcome_user n p ⟨u, st', it'⟩ (u', sk, r)
+      have hr := applyOutcome_result n p ⟨u, st', it'⟩ (u', sk, r)
+      rcases hx : applyOutcome n p ⟨u, st', it'⟩ (u', sk, r) with ⟨⟨a, b, c⟩, d⟩
+      rw [hx] at hu hr
+      simp only at hu hr
+      subst hu; subst hr; rfl
+    rw [e1, e2]
+    cases r with
+    | ret b => exact ih u' _ _ _ _ _ _
+    | valueError => exact ⟨rfl, rfl⟩
+    | indexError => exact ⟨rfl, rfl⟩
+    | solutionError c => exact ⟨rfl, rfl⟩
+    | nonConvergence => exact ⟨rfl, rfl⟩
+    | badErrorsArg => exact ⟨rfl, rfl⟩
+
+/-- `solve(start, end)` likewise: values and result do not depend on the bookkeeping left by earlier calls. -/
+theorem solve_history_irrelevant (lags leads : Nat) (start stop : Option Loc) (u : σ)
+    (st st' : List Status) (it it' : List Int) :
+    (solve I o n lags leads start stop ⟨u, st, it⟩).1.user = (solve I o n lags leads start stop ⟨u, st', it'⟩).1.user ∧
+    (solve I o n lags leads start stop ⟨u, st, it⟩).2 = (solve I o n lags leads start stop ⟨u, st', it'⟩).2 := by
+  unfold solve
+  by_cases h0 : o.minIter > o.maxIter
+  · simp only [h0, if_true, and_self]
+  · simp only [h0, if_false]
+    by_cases h1 : start = some .other ∨ start = some .missing
+    · simp only [h1, if_true, and_self]
+    · simp only [h1, if_false]
+      by_cases h2 : stop = some .other ∨ stop = some .missing
+      · simp only [h2, if_true, and_self]
+      · simp only [h2, if_false]
+        by_cases h3 : n = 0
+        · simp only [h3, if_true, and_self]
+        · simp only [h3, if_false]
+          cases resolveBound start (if lags < n then some lags else none) with
+          | error r => exact ⟨rfl, rfl⟩
+          | ok s =>
+            cases resolveBound stop (if leads < n then some (n - 1 - leads) else none) with
+            | error r => exact ⟨rfl, rfl⟩
+            | ok e => exact solveList_history_irrelevant I o n _ u st st' it it' [] []
 
 end Fsic.C05
